@@ -1385,8 +1385,8 @@ class RawAlgorithmsMixIn:
             raise NotImplementedError('should implement that')
 
         xbar_data = out
-        tmp1 = numpy.zeros(xbar_data.shape)
-        tmp2 = numpy.zeros(xbar_data.shape)
+        tmp1 = numpy.zeros(xbar_data.shape, dtype=xbar_data.dtype)
+        tmp2 = numpy.zeros(xbar_data.shape, dtype=xbar_data.dtype)
 
         tmp1 = cls._dot(ybar_data, cls._transpose(y_data), out = tmp1)
         tmp2 = cls._dot(cls._transpose(y_data), tmp1, out = tmp2)
@@ -1404,12 +1404,13 @@ class RawAlgorithmsMixIn:
         Abar_data = out[0]
         xbar_data = out[1]
 
-        Tbar = numpy.zeros(xbar_data.shape)
+        Tbar = numpy.zeros(xbar_data.shape, dtype=numpy.promote_types(xbar_data.dtype, Abar_data.dtype))
 
         cls._solve( A_data.transpose((0,1,3,2)), ybar_data, out = Tbar)
         Tbar *= -1.
         cls._iouter(Tbar, y_data, Abar_data)
-        xbar_data -= Tbar
+        # a real right hand side x of a complex system receives the real part of the adjoint
+        numpy.subtract(xbar_data, Tbar, out = xbar_data, casting = 'unsafe')
 
         return out
 
